@@ -244,32 +244,39 @@ Definition split_line (ts : list tok) : option (list otok) := plain [] ts.
 Definition universe : list N := [10; 11; 12; 13; 14; 100; 101; 200].
 Definition pkgs : list pkg := [(0, 1); (0, 2); (1, 1); (1, 2); (2, 1); (2, 2)].
 Definition refused : val := VErr [114; 101; 102; 117; 115; 101; 100].   (* "refused" *)
-Definition enc_set (s : list N) : val := VL (map (fun f => VB (mem f s)) universe).
-Definition enc_nl (l : list N) : val := VL (map (fun x => VZ (Z.of_N x)) l).
+(* compact results: a rendered set is the bitmask of [universe] (bit i = i-th flag), token and
+   chunk lists are flat number lists; [vz] is the constructor the harness writes *)
+Definition vz (l : list Z) : val := VL (map VZ l).
+Definition bits (s : list N) : Z :=
+  Z.of_N (fold_right (fun f acc => (if mem f s then 1 else 0) + 2 * acc) 0 universe).
 
 (* stream "hist": a program and some pre_defaults -> rendered sets for the six packages *)
 Definition run_hist (i : prog * list (list N)) : val :=
   match run (fst i) with
   | None => refused
-  | Some d => VL (map (fun pre => VL (map (fun p => enc_set (render d p pre)) pkgs)) (snd i))
+  | Some d => vz (flat_map (fun pre => map (fun p => bits (render d p pre)) pkgs) (snd i))
   end.
-(* stream "build": _build_cp_atom_payload(seq, restrict) -> the exact chunk tuple *)
-Definition enc_scope (s : scope) : val :=
+(* stream "build": _build_cp_atom_payload(seq, restrict) -> the exact chunk tuple, flattened as
+   scope code, key, version/mask, |neg|, neg..., |pos|, pos... *)
+Definition zl (l : list N) : list Z := map Z.of_N l.
+Definition enc_scope (s : scope) : list Z :=
   match s with
-  | KAll => VL [VZ 0%Z]
-  | KGlob m => VL [VZ 1%Z; VZ (Z.of_N m)]
-  | KSimple k => VL [VZ 2%Z; VZ (Z.of_N k)]
-  | KVer k v => VL [VZ 3%Z; VZ (Z.of_N k); VZ (Z.of_N v)]
+  | KAll => [0; 0; 0]%Z
+  | KGlob m => [1; Z.of_N m; 0]%Z
+  | KSimple k => [2; Z.of_N k; 0]%Z
+  | KVer k v => [3; Z.of_N k; Z.of_N v]%Z
   end.
-Definition enc_chunk (c : chunk) : val := VL [enc_scope (sc c); enc_nl (neg c); enc_nl (pos c)].
-Definition run_build (i : list chunk * scope) : val := VL (map enc_chunk (build (fst i) (snd i))).
-(* stream "split": package_use_splitter on one line *)
-Definition enc_otok (t : otok) : val :=
+Definition enc_chunk (c : chunk) : list Z :=
+  enc_scope (sc c) ++ [Z.of_nat (length (neg c))] ++ zl (neg c) ++ [Z.of_nat (length (pos c))] ++ zl (pos c).
+Definition run_build (i : list chunk * scope) : val := vz (flat_map enc_chunk (build (fst i) (snd i))).
+(* stream "split": package_use_splitter on one line; token codes: flag f = f, -f = 1000+f,
+   -* = 2000, -P_* = 3000+P *)
+Definition enc_otok (t : otok) : Z :=
   match t with
-  | OPos f => VL [VZ 0%Z; VZ (Z.of_N f)]
-  | ONeg f => VL [VZ 1%Z; VZ (Z.of_N f)]
-  | OStar => VL [VZ 2%Z]
-  | ONegPre p => VL [VZ 3%Z; VZ (Z.of_N p)]
+  | OPos f => Z.of_N f
+  | ONeg f => Z.of_N (1000 + f)
+  | OStar => 2000%Z
+  | ONegPre p => Z.of_N (3000 + p)
   end.
 Definition run_split (ts : list tok) : val :=
-  match split_line ts with None => VNone | Some o => VL (map enc_otok o) end.
+  match split_line ts with None => VNone | Some o => vz (map enc_otok o) end.
